@@ -166,5 +166,22 @@ def neighbour_cases(tag, sessions):
                 if sessions:
                     ops += [{"op": "session"}, {"op": "mkgroup", "p": "/g"}]
                 cases.append({"cfg": {"sb": sb, "rb": "", "style": 0, "tag": tag}, "ops": ops})
+    # an object header filled to every size up to and beyond its capacity, one byte at a time (one string attribute of
+    # 1..230 bytes, for a group and for a dataset), with a neighbour allocated right behind it - created before and after
+    # the attribute is written.  Exactly full is one of the sizes.
+    if True:
+        for L in range(1, 231):
+            for first in (True, False):
+                for kind in (("ds",) if sessions else ("ds", "grp")):
+                    own = [{"op": "mkds", "p": "/c", "dt": "i32", "dims": [2]}, {"op": "write", "p": "/c", "data": "seq"}] if kind == "ds" \
+                        else [{"op": "mkgroup", "p": "/c"}]
+                    nb = [{"op": "mkds", "p": "/d", "dt": "i32", "dims": [6]}, {"op": "write", "p": "/d", "data": "neg"}]
+                    at = [{"op": "attr", "p": "/c", "n": "a", "v": "s%d" % L}]
+                    if sessions:     # the attribute is written in a later session, on the reopened dataset
+                        at = [{"op": "session"}, {"op": "opends", "p": "/c"}] + at + [{"op": "session"}, {"op": "mkgroup", "p": "/g"}]
+                        if first:
+                            continue
+                    ops = own + (at + nb if first else nb + at)
+                    cases.append({"cfg": {"sb": [2, 3, 0][L % 3] if L % 5 else 2, "rb": "", "style": 0, "tag": tag + "-fill"}, "ops": ops})
     return cases
 
